@@ -156,7 +156,7 @@ fn with_non_ascii(w: &Workspace, rng: &mut Rng) -> Workspace {
 }
 
 impl SwCheck {
-    fn check_state(&self, w: &Workspace, state: &'static str, ctx: &mut Ctx) {
+    pub fn check_state(&self, w: &Workspace, state: &'static str, ctx: &mut Ctx) {
         let case = case_of(w, state);
         ctx.current_json(&case);
         ctx.feature(&format!("state:{}", state));
@@ -448,6 +448,12 @@ impl Check for SwCheck {
     }
     fn unit_cpu_budget_s(&self) -> f64 {
         600.0
+    }
+    fn sanitizer_steps(&self, seed: u64, agg: &mut Agg) {
+        if self.mode != SMode::Coherence {
+            // salsa + parking_lot + rowan + the indexer under the Miri interpreter (tiny two-file workspaces)
+            crate::sanit::miri("ide", seed, 16, 3, agg);
+        }
     }
     fn technique(&self) -> &'static str {
         match self.mode {
